@@ -535,6 +535,28 @@ def impl_print(mode, tname, cc, enc, data):
 
 
 # --------------------------------------------------------------------------- objects
+def impl_e2o(mode, tname, cc, enc, data):
+    """events_to_obj over the MarshalEvents a decode yields (also the partial list of a decode that raises)"""
+    from tpmstream.common.object import events_to_obj
+    tp = resolve_type(tname)
+    kw = dict(tpm_type=tp, buffer=bytes(data), abort_on_error=(mode == "S"))
+    ccobj = TPM_CC(cc) if cc is not None else None
+    if ccobj is not None:
+        kw["command_code"] = ccobj
+    if enc:
+        kw["parameter_encryption"] = True
+    evs = []
+    try:
+        for e in Binary.marshal(**kw):
+            evs.append(e)
+    except Exception:  # noqa
+        pass
+    try:
+        return [f"B {obj_str(events_to_obj(evs, command_code=ccobj))}"]
+    except Exception as e:  # noqa
+        return ["B crash"]
+
+
 def impl_objects(mode, tname, cc, enc, data):
     """decoder object, events_to_obj(events), obj_to_events of both, re-encoding — canonical lines:
        D <obj>   the decoder's object          B <obj>   object rebuilt from the events
